@@ -2,6 +2,8 @@ package props
 
 import (
 	"bytes"
+	"encoding/binary"
+	"hash/crc32"
 	"encoding/hex"
 	"encoding/json"
 	"fmt"
@@ -548,3 +550,139 @@ func C02(c *core.Ctx) {
 	c.Assumptions = []string{"independent GPT/MBR parser (harness/internal/rawpt) with its own CRC32 and GUID decoding", "numbers >= 2^31 are carried as decimal strings and only compared by TLC", "GetPartition ranges are taken from a freshly opened disk (table read from the bytes)"}
 	ptRun(c, "C02")
 }
+
+// ---- foreign tables that are adapted to the device (C03) ----
+// A GPT written by another tool may hold any number of entries of 128 bytes or more (UEFI asks for at least
+// 16 KiB): the array then need not be a whole number of sectors (130 entries = 32.5 sectors of 512 bytes).
+// The class: such a table (count 129 / 130 / 136 / 192) is read, adapted to the device with Repair or Resize
+// (or left as read), its last partition is stretched to LastDataSector() - the last sector the table itself
+// offers for data - and the table is written.  C03: not one byte of a partition's range is written.
+func ptForeignRegrow(c *core.Ctx) {
+	const lss = 512
+	type fcase struct {
+		Count int
+		Adapt string // none | repair | resize | grow (Resize to a device that became larger)
+	}
+	var cases []fcase
+	for _, n := range []int{128, 129, 130, 136, 192} {
+		for _, a := range []string{"none", "repair", "resize", "grow"} {
+			cases = append(cases, fcase{n, a})
+		}
+	}
+	accepted := 0
+	for ci, fc := range cases {
+		size := int64(20 << 20)
+		d := memdev.NewPattern(size + 4<<20)
+		d.SetSize(size)
+		r := rand.New(rand.NewSource(c.Seed*7919 + int64(ci)))
+		base := &gpt.Table{LogicalSectorSize: lss, PhysicalSectorSize: lss, ProtectiveMBR: true, GUID: randGUID(r), Partitions: []*gpt.Partition{
+			{Index: 1, Start: 2048, End: 4095, Type: gpt.LinuxFilesystem, Name: "one", GUID: randGUID(r)},
+			{Index: 2, Start: 8192, End: 16383, Type: gpt.LinuxFilesystem, Name: "two", GUID: randGUID(r)}}}
+		if err := base.Write(d, size); err != nil {
+			c.Broken("foreign-regrow: base table not written: %v", err)
+			return
+		}
+		// re-shape both copies to fc.Count entries (independent of the library)
+		sectors := uint64(size / lss)
+		arrSectors := uint64((fc.Count*128 + lss - 1) / lss)
+		arr := make([]byte, arrSectors*lss)
+		copy(arr, d.Bytes(2*lss, 128*128))
+		arr = arr[:arrSectors*lss]
+		for i := fc.Count * 128; i < len(arr); i++ {
+			arr[i] = 0
+		}
+		secArr := sectors - 1 - arrSectors
+		d.WriteAt(arr, 2*lss)
+		d.WriteAt(arr, int64(secArr)*lss)
+		for _, hoff := range []int64{lss, size - lss} {
+			h := d.Bytes(hoff, lss)
+			binary.LittleEndian.PutUint64(h[40:48], 2+arrSectors) // first usable
+			binary.LittleEndian.PutUint64(h[48:56], secArr-1)     // last usable
+			if hoff != lss {
+				binary.LittleEndian.PutUint64(h[72:80], secArr)
+			}
+			binary.LittleEndian.PutUint32(h[80:84], uint32(fc.Count))
+			binary.LittleEndian.PutUint32(h[88:92], crc32.ChecksumIEEE(arr[:fc.Count*128]))
+			binary.LittleEndian.PutUint32(h[16:20], 0)
+			binary.LittleEndian.PutUint32(h[16:20], crc32.ChecksumIEEE(h[0:92]))
+			d.WriteAt(h, hoff)
+		}
+		var tb *gpt.Table
+		var err error
+		if p := fsx.Catch(func() { tb, err = gpt.Read(file.New(d, true), lss, lss) }); p != "" || err != nil || tb == nil {
+			c.Extra[fmt.Sprintf("foreign_regrow_%d_%s", fc.Count, fc.Adapt)] = fmt.Sprintf("not read: %v %v", err, p)
+			continue
+		}
+		devSize := size
+		switch fc.Adapt {
+		case "repair":
+			err = tb.Repair(uint64(devSize))
+		case "resize":
+			tb.Resize(uint64(devSize))
+		case "grow":
+			devSize = size + 4<<20
+			d.SetSize(devSize)
+			tb.Resize(uint64(devSize))
+		}
+		if err != nil || len(tb.Partitions) == 0 {
+			continue
+		}
+		var last *gpt.Partition
+		for _, p := range tb.Partitions {
+			if p.Start != 0 && (last == nil || p.Start > last.Start) {
+				last = p
+			}
+		}
+		if last == nil {
+			continue
+		}
+		last.End = tb.LastDataSector()
+		last.Size = (last.End - last.Start + 1) * lss
+		type rng struct{ lo, hi int64 }
+		var data []rng
+		for _, p := range tb.Partitions {
+			if p.Start != 0 {
+				data = append(data, rng{int64(p.Start) * lss, int64(p.End+1) * lss})
+			}
+		}
+		before := d.Clone()
+		d.ResetLog()
+		var werr error
+		pan := fsx.Catch(func() { werr = tb.Write(d, devSize) })
+		c.AddEval(1)
+		if pan != "" {
+			c.Fail([]string{"gpt-foreign-table-write-panic"}, fmt.Sprintf("foreign GPT with %d entries, adapted by %s: Write panics: %s", fc.Count, fc.Adapt, pan), fc)
+			continue
+		}
+		hit, first := int64(0), int64(-1)
+		for _, w := range extentsOf(d) {
+			for _, pr := range data {
+				lo, hi := max(w.Off, pr.lo), min(w.Off+w.Len, pr.hi)
+				if lo < hi {
+					hit += hi - lo
+					if first < 0 || lo < first {
+						first = lo
+					}
+				}
+			}
+		}
+		changed := !bytes.Equal(before.Bytes(0, 446), d.Bytes(0, 446))
+		if hit > 0 || changed {
+			c.Fail([]string{"gpt-table-write-into-partition-data"}, fmt.Sprintf("foreign GPT with %d entries of 128 bytes, adapted by %s, last partition ends on LastDataSector()=%d: Write (err %v) wrote %d bytes inside partition ranges (first at byte %d = sector %d), boot code changed: %v", fc.Count, fc.Adapt, tb.LastDataSector(), werr, hit, first, first/lss, changed),
+				map[string]any{"case": fc, "last_data_sector": tb.LastDataSector(), "bytes_in_partitions": hit, "first": first})
+			continue
+		}
+		if werr == nil {
+			accepted++
+			c.Distinct(fmt.Sprintf("foreign-regrow %+v", fc))
+		}
+	}
+	c.Extra["foreign_regrow_cases"] = len(cases)
+	c.Extra["foreign_regrow_written"] = accepted
+	if accepted == 0 {
+		c.Broken("foreign-regrow: no adapted foreign table was written (vacuous)")
+	}
+}
+
+// PtForeign is a development entry (not registered): the foreign-regrow class alone.
+func PtForeign(c *core.Ctx) { ptForeignRegrow(c) }
